@@ -231,11 +231,26 @@ def run_many(harnesses, logdir, budget_gb=44, max_par=12, order_seed=0):
     state = {"used": 0.0}
     results = []
 
+    def mem_available_gb():
+        try:
+            for line in open("/proc/meminfo"):
+                if line.startswith("MemAvailable:"):
+                    return int(line.split()[1]) / (1024.0 * 1024.0)
+        except OSError:
+            pass
+        return 1e9
+
     def worker(h):
         with cond:
             while state["used"] + h.mem_gb > budget_gb and state["used"] > 0:
                 cond.wait()
             state["used"] += h.mem_gb
+        # besides the per-check budget, never start a solver when the machine itself is short of
+        # memory (other checks, builds or test runs may be active): wait up to 30 minutes
+        waited = 0
+        while mem_available_gb() < h.mem_gb * 1.2 + 3 and waited < 1800:
+            time.sleep(15)
+            waited += 15
         try:
             r = run_harness(h, logdir)
         except Exception as e:  # noqa
